@@ -1206,7 +1206,7 @@ impl<Alloc: BrotliAlloc> BrotliEncoderStateStruct<Alloc> {
         if !self.ensure_initialized() {
             return;
         }
-        if dict_size == 0 || self.params.quality == 0 || self.params.quality == 1 || size <= 1 {
+        if dict_size == 0 || self.params.quality == 0 || self.params.quality == 1 {
             self.params.catable = true; // don't risk a too-short dictionary
             self.params.appendable = true; // don't risk a too-short dictionary
             return;
